@@ -5,7 +5,9 @@ import HappyModel.C01.Process
     ents <n>
     pre <tgt> <kind> <timeNs> <daemon> <hook> <cancelled>
     def <ent> <kind> <gen> <acts> | <term> ; <acts> | <term> ; …
-      acts, comma separated:  E tgt kind delayNs daemon hook | X kind | R f v | A f g… | L f g… | N f | C ent | U ent
+      acts, comma separated:  E tgt kind delayNs daemon hook | X kind | R f val | A f g… | L f g… | N f | C ent | U ent |
+                              AH kind hook | M ent abs v
+    lvl <ent> <v>
       term:                   Y delayNs | W f | Z
 -/
 namespace HappyModel.C01
@@ -17,6 +19,28 @@ def splitOnTok (sep : String) (ts : List String) : List (List String) :=
     | t :: rest => if t == sep then go [] (cur.reverse :: acc) rest else go (t :: cur) acc rest
   go [] [] ts
 
+/-- a value without nesting: `none`, `n7`, `a0.3`; a bare number is read as `n…` -/
+def parseFlatVal (t : String) : Val :=
+  if t == "none" then .none
+  else if t.startsWith "n" then .n (natD (t.drop 1).toString)
+  else if t.startsWith "a" then
+    match (t.drop 1).toString.splitOn "." with
+    | [k, x] => .atom (natD k) (natD x)
+    | _ => .none
+  else .n (natD t)
+
+/-- value tokens of the program / trace syntax: flat values, `p(i,flat)`, `l[flat,flat,…]` -/
+def parseVal (t : String) : Val :=
+  if t.startsWith "p(" && t.endsWith ")" then
+    let inner := ((t.drop 2).dropEnd 1).toString
+    match inner.splitOn "," with
+    | i :: rest => .pair (natD i) (parseFlatVal (",".intercalate rest))
+    | [] => .none
+  else if t.startsWith "l[" && t.endsWith "]" then
+    let inner := ((t.drop 2).dropEnd 1).toString
+    if inner.isEmpty then .list [] else .list ((inner.splitOn ",").map parseFlatVal)
+  else parseFlatVal t
+
 def parseAct (ts : List String) : Option Act :=
   match ts with
   | ["E", tgt, kind, d, dm, hk] => some (.emit (natD tgt) (natD kind) (natD d) (natD dm != 0) (natD hk))
@@ -24,7 +48,9 @@ def parseAct (ts : List String) : Option Act :=
   | ["EA", tgt, kind, t, dm] => some (.emitAbs (natD tgt) (natD kind) (natD t) (natD dm != 0))
   | ["RH", i] => some (.release (natD i))
   | ["X", k] => some (.cancel (natD k))
-  | ["R", f, v] => some (.resolve (natD f) (natD v))
+  | ["R", f, v] => some (.resolve (natD f) (parseVal v))
+  | ["AH", k, h] => some (.addHook (natD k) (natD h))
+  | ["M", x, a, v] => some (.metric (natD x) (natD a != 0) (intD v))
   | "A" :: f :: gs => some (.anyOf (natD f) (nats gs))
   | "L" :: f :: gs => some (.allOf (natD f) (nats gs))
   | ["N", f] => some (.fresh (natD f))
@@ -48,6 +74,7 @@ structure Program where
   defs : List HandlerDef := []
   pre : List (Spec × Nat × Bool) := []      -- spec, hook, cancelled-before-run
   held : List Spec := []                    -- created before the run (after the scheduled ones), not scheduled
+  levels : List (Nat × Int) := []           -- initial `level` attribute of entities (absent = None)
 
 def parseProgram (body : List String) : Program :=
   body.foldl (fun p line =>
@@ -58,6 +85,7 @@ def parseProgram (body : List String) : Program :=
       { p with pre := p.pre ++ [(⟨natD t, natD tgt, natD kind, natD dm != 0, 0, p.pre.length + 1⟩, natD hk, natD c != 0)] }
     | ["held", tgt, kind, t, dm] =>
       { p with held := p.held ++ [⟨natD t, natD tgt, natD kind, natD dm != 0, 0, 0⟩] }
+    | ["lvl", x, v] => { p with levels := (natD x, intD v) :: p.levels.filter (fun q => q.1 != natD x) }
     | _ => p) {}
 
 /-- initial engine state of a program at clock 0 -/
@@ -69,6 +97,7 @@ def Program.initState (p : Program) (gateCont : Bool) : St PS :=
     { defs := p.defs, nid := n, tagc := n + p.held.length, gateCont := gateCont,
       held := ((List.range p.held.length).zip p.held).map (fun q => (q.1, { q.2 with tag := n + q.1 + 1 })),
       lastKind := (ids.zip specs).foldl (fun acc q => (q.2.kind, q.1) :: acc.filter (fun x => x.1 != q.2.kind)) [],
+      level := p.levels,
       hookOf := (ids.zip p.pre).filterMap (fun q => if q.2.2.1 = 0 then none else some (q.1, q.2.2.1)) }
   let s : St PS := init ps 0 specs
   { s with cancelled := (ids.zip p.pre).filterMap (fun q => if q.2.2.2 then some q.1 else none) }
